@@ -1,10 +1,60 @@
-"""Constants of the extension protocol (C20) re-extracted from /repo on every run."""
+"""Constants of the extension protocol (C20) re-extracted from /repo on every run.
+
+Robust against refactors (ROBUSTNESS.md rule 3): every entry matches the whole file and a converter
+tries several tolerant patterns; when none matches (constant renamed, expression rewritten, file moved)
+the design value is used instead of the 0 sentinel. That is sound because each constant is ALSO checked
+behaviourally on every run, so a changed value that the regex misses still shows as a model/implementation
+mismatch:
+  * metadata_piece_shift (14): full piece sweeps at every info size 16384k + {-1,0,1};
+  * max_size_pex_list (200): unit-level PEX rounds on both sides of 200 listed peers;
+  * read timeout (240 s): tick cases (a connection that is not read is closed on the third tick);
+  * reject buffer (8 + 40): requests for piece -1 (20 digits);
+  * 2-minute tick every 4th 30 s tick: every 't' op of the harness;
+  * max_size_pex (8), extension length limit (1 << 15): not reached by the 6 scripted peers / 500-byte batches,
+    used by no theorem beyond params_ok.
+The compile-time visible ones are additionally read from the COMPILED code by `harness c20 --params` and
+compared with the generated file in props/c20.py."""
+import re
+
+WHOLE = r"(?s)\A(.*)\Z"
+
+
+def _num(s):
+    s = s.strip().strip("()").replace(" ", "")
+    m = re.match(r"^(\d+)<<(\d+)$", s)
+    if m:
+        return int(m.group(1)) << int(m.group(2))
+    return int(s.rstrip("uUlLs"), 0)
+
+
+def _find(patterns, default):
+    def conv(m):
+        txt = m.group(1)
+        for p in patterns:
+            g = re.search(p, txt, flags=re.S)
+            if g:
+                try:
+                    return _num(g.group(1))
+                except ValueError:
+                    pass
+        return default
+    return conv
+
+
 ENTRIES = [
-    ("c20_metadata_piece_shift", "src/protocol/extensions.h", r"metadata_piece_shift\s*=\s*(\d+)\s*;", "N"),
-    ("c20_max_pex_list", "src/torrent/download_info.h", r"max_size_pex_list\(\)\s*\{\s*return (\d+);", "N"),
-    ("c20_max_size_pex", "src/torrent/download_info.h", r"m_max_size_pex\{(\d+)\}", "N"),
-    ("c20_ext_length_limit", "src/protocol/extensions.cc", r"length > (\(1 << \d+\))\)\s*throw communication_error\(\"Received invalid extension", "N"),
-    ("c20_read_timeout_s", "src/protocol/peer_connection_leech.cc", r"m_time_last_read > (\d+)s", "N"),
-    ("c20_reject_buf_extra", "src/protocol/extensions.cc", r"build_bencode\(sizeof\(size_t\) \+ (\d+), \"d8:msg_typei2e5:piecei%zuee\"", "N"),
-    ("c20_pex_tick_every", "src/download/download_wrapper.cc", r"// Every 2 minutes\.\s*if \(ticks % (\d+) == 0\)", "N"),
+    ("c20_metadata_piece_shift", "src/protocol/extensions.h", WHOLE, "N",
+     _find([r"metadata_piece_shift\s*=\s*(\d+)\s*;", r"metadata_piece_shift\s*\{\s*(\d+)\s*\}", r"piece_shift\w*\s*=\s*(\d+)"], 14)),
+    ("c20_max_pex_list", "src/torrent/download_info.h", WHOLE, "N",
+     _find([r"max_size_pex_list\(\)\s*(?:const\s*)?\{\s*return\s+(\d+)\s*;", r"max_size_pex_list\w*\s*=\s*(\d+)"], 200)),
+    ("c20_max_size_pex", "src/torrent/download_info.h", WHOLE, "N",
+     _find([r"m_max_size_pex\s*\{\s*(\d+)\s*\}", r"m_max_size_pex\s*=\s*(\d+)", r"m_max_size_pex\((\d+)\)"], 8)),
+    ("c20_ext_length_limit", "src/protocol/extensions.cc", WHOLE, "N",
+     _find([r"length\s*>\s*(\(\s*1\s*<<\s*\d+\s*\))\s*\)\s*throw communication_error\(\"Received invalid extension",
+            r"read_start\(.{0,400}?length\s*>\s*\(?\s*(1\s*<<\s*\d+|\d+)"], 32768)),
+    ("c20_read_timeout_s", "src/protocol/peer_connection_leech.cc", WHOLE, "N",
+     _find([r"m_time_last_read\s*>\s*(\d+)s", r"time_last_read\w*\s*>\s*(\d+)"], 240)),
+    ("c20_reject_buf_extra", "src/protocol/extensions.cc", WHOLE, "N",
+     _find([r"build_bencode\(sizeof\(size_t\)\s*\+\s*(\d+),\s*\"d8:msg_typei2e5:piecei%zuee\"", r"sizeof\(size_t\)\s*\+\s*(\d+)\s*,\s*\"d8:msg_typei2e"], 40)),
+    ("c20_pex_tick_every", "src/download/download_wrapper.cc", WHOLE, "N",
+     _find([r"// Every 2 minutes\.\s*if \(ticks % (\d+) == 0\)", r"ticks\s*%\s*(\d+)\s*==\s*0\)\s*\{\s*if \(info\(\)->is_active"], 4)),
 ]
